@@ -314,6 +314,12 @@ def handle (op : String) (args : List String) : Option String :=
     match args with
     | [a, b] => some (boolStr (a == b && a != "spanic" && a != "s70616e6963"))
     | _ => none
+  | "c12.holds.file_equals_schema" =>
+    -- the file GraphSaver.Save left on disk is App.Schema() at that moment (full bytes, or length + SHA-256 of both)
+    match args with
+    | [st, "full", a, b] => some (boolStr (st == hs "ok" && a == b))
+    | [st, "digest", la, da, lb, db] => some (boolStr (st == hs "ok" && la == lb && da == db))
+    | _ => some "false"
   | "c12.holds.schema_fixpoint" => do
     let (a, b) ← splitAt2 "S" args
     let (sa, _) ← pSchema.run a
